@@ -13,20 +13,21 @@ import (
 // Level is one of the metrics struct types (Base, Temporal, Environmental) of
 // one CVSS version.
 type Level struct {
-	Spec      *spec.Level
-	Version   *spec.Version
-	Pkg       *packages.Package
-	Named     *types.Named
-	Struct    *types.Struct
-	Embedded  *types.Var // anonymous pointer to the lower level, nil for Base
-	Lower     *Level
-	Metrics   []*types.Var          // fields named like the spec's metrics of this level, in struct order
-	ByName    map[string]*types.Var // metric name -> field
-	VerField  *types.Var            // v3 Base only
-	Names     *types.Var            // the unexported set of names seen (map[string]bool)
-	DecodeOne *types.Func           // the unexported per-token decoder: func (*T) X(string) error
-	Other     []*types.Var          // anything else declared in the struct
-	Problems  []string
+	Spec         *spec.Level
+	Version      *spec.Version
+	Pkg          *packages.Package
+	Named        *types.Named
+	Struct       *types.Struct
+	Embedded     *types.Var // anonymous pointer to the lower level, nil for Base
+	Lower        *Level
+	Metrics      []*types.Var          // fields named like the spec's metrics of this level, in struct order
+	ByName       map[string]*types.Var // metric name -> field
+	VerField     *types.Var            // v3 Base only
+	Names        *types.Var            // the unexported set of names seen (map[string]bool)
+	DecodeOne    *types.Func           // the unexported per-token decoder: func (*T) X(string) error
+	Other        []*types.Var          // anything else declared in the struct
+	Problems     []string
+	NamesProblem string // set when Names is nil
 }
 
 func (l *Level) String() string { return load.Rel(l.Pkg.PkgPath) + "." + l.Named.Obj().Name() }
@@ -100,7 +101,8 @@ func (f *Facts) Levels(v *spec.Version) ([]*Level, error) {
 			}
 		}
 		if l.Names == nil {
-			l.Problems = append(l.Problems, "no unexported map[string]bool field recording the names seen")
+			// not a problem of the layout as such: only the rules that reason about the names seen need it
+			l.NamesProblem = "no unexported map[string]bool field recording the names seen (the rules know no other representation of that set)"
 		}
 		// the per-token decoder, identified by role (unexported, pointer receiver, func(string) error), not by name
 		var cands []*types.Func
